@@ -15,16 +15,20 @@ PAIRS = {"Rx": "NotRx", "NotRx": "Rx", "Like": "NotLike", "NotLike": "Like", "Be
          "NotBetween": "Between", "Eq": "Ne", "Ne": "Eq", "Eeq": "Ene", "Ene": "Eeq"}
 
 
-def negate_table(ctx):
+def negate_table(ctx, report=True):
     hir = ctx.anchor_hir(NEGATE)
     ms = find_matches(hir)
     if len(ms) != 1:
+        if not report:
+            return None, None
         ctx.violation("anchor/negate-shape", NEGATE, "Op::negate is not one total match; failing closed")
         raise Abort()
     t = {}
     for a in match_arms(ms[0]):
         b = peel_result(a["body"])
         if b["k"] != "Path":
+            if not report:
+                return None, None
             ctx.violation("anchor/negate-arm", ctx.where(NEGATE, b), "arm value is not an operator constant")
             raise Abort()
         for k in a["keys"]:
@@ -32,8 +36,31 @@ def negate_table(ctx):
     return t, ms[0]
 
 
+def negate_by_evaluation(ctx):
+    """Op::negate evaluated (finite interpreter) on every variant of Op -> {variant: variant}; raises interp.Undecided"""
+    import interp
+    h = ctx.anchor_hir(NEGATE)
+    ps = ctx.prog.fns[NEGATE]["params"]
+    out = {}
+    for v in ctx.prog.adt_variants("operators::Op") or []:
+        got = interp.Interp(prog=ctx.prog, max_steps=5000).run(h, {ps[0]["id"]: interp.V("Op::" + v)})
+        if not (isinstance(got, interp.V) and got.name.startswith("Op::")):
+            raise interp.Undecided("negate(%s) gives %r" % (v, got))
+        out[v] = got.name.split("::")[-1]
+    return out
+
+
 def r1(ctx):
-    t, m = negate_table(ctx)
+    import interp
+    t, m = negate_table(ctx, report=False)
+    if t is None or len([k for k in t if k != "_"]) < 14:
+        # not one total match (pairs in a const slice, two matches ..): the same table by evaluation of Op::negate on every variant
+        try:
+            t, m = negate_by_evaluation(ctx), None
+        except interp.Undecided as e:
+            ctx.obligation(False)
+            ctx.violation("negate/unreadable", ctx.where(NEGATE), "Op::negate is neither one total match nor evaluable: %s" % e)
+            return
     variants = ctx.prog.adt_variants("operators::Op") or []
     ctx.floor(len([k for k in t if k != "_"]), 14, "arms of Op::negate", NEGATE)
     cf = sem.Conforms(ctx)
@@ -74,8 +101,138 @@ def r1(ctx):
                 len(t), distinct_keys=t.keys(), sample={"negate": t}, exhaustive=True)
 
 
+def _unsome(x):
+    import interp
+    return x.args[0] if isinstance(x, interp.V) and x.name == "Option::Some" else (None if x == interp.NONE else x)
+
+
+def expr_truth(t, env):
+    """truth value of a tree of Expr dictionaries under an assignment of its atoms: inner nodes are And / Or; a leaf is either a
+    bare atom (an Expr whose `val` names it) or a comparison `atom = v` / `atom != v` (true / false when the atom is)"""
+    import interp
+    t = _unsome(t)
+    if isinstance(t, str):
+        return env[t]
+    if not isinstance(t, dict):
+        raise interp.Undecided("not an expression: %r" % (t,))
+    lo, op = _unsome(t.get("logical_op")), _unsome(t.get("op"))
+    if lo is not None:
+        l, r = expr_truth(t.get("left"), env), expr_truth(t.get("right"), env)
+        nm = lo.name.split("::")[-1]
+        if nm == "And":
+            return l and r
+        if nm == "Or":
+            return l or r
+        raise interp.Undecided("connective %s" % nm)
+    if op is not None:
+        a = expr_truth(t.get("left"), env)
+        nm = op.name.split("::")[-1]
+        if nm == "Eq":
+            return a
+        if nm == "Ne":
+            return not a
+        raise interp.Undecided("operator %s on an atom" % nm)
+    v = _unsome(t.get("val"))
+    if v in env:
+        return env[v]
+    raise interp.Undecided("unknown leaf %r" % (v,))
+
+
+def boolean_grammar_by_evaluation(ctx):
+    """parse_expr evaluated (finite interpreter; parse_and and whatever helper they share are read from the source, the condition
+    level parse_cond is a stand-in that takes one word as an atom) on every formula of 1..4 atoms joined by and / or: the tree
+    built has the truth table of the formula read with AND binding tighter than OR.  -> (formulas, problems)"""
+    import interp
+    import itertools
+    from extra import _expr_dict
+    V = interp.V
+    hir = ctx.anchor_hir(PARSE_EXPR)
+    ps = ctx.prog.fns[PARSE_EXPR]["params"]
+    n, problems = 0, []
+    for k in range(1, 5):
+        for ops in itertools.product(("and", "or"), repeat=k - 1):
+            atoms = "abcd"[:k]
+            lex = []
+            for i, a in enumerate(atoms):
+                if i:
+                    lex.append(V("Lexem::And") if ops[i - 1] == "and" else V("Lexem::Or"))
+                lex.append(V("Lexem::RawString", [a]))
+            lex.append(V("Lexem::Close"))
+            selfv = interp.LazySelf({"lexems": list(lex), "index": 0, "roots_parsed": True, "where_parsed": False})
+
+            def call(node, recv, args, it, env, selfv=selfv):
+                m_ = node.get("m")
+                callee = str(node.get("callee", ""))
+                if m_ == "parse_cond" or callee.endswith("Parser::parse_cond"):
+                    i = selfv["index"]
+                    if i < len(selfv["lexems"]) and selfv["lexems"][i].name == "Lexem::RawString":
+                        selfv["index"] = i + 1
+                        return (V("Result::Ok", [interp.some(_expr_dict(interp, val=interp.some(selfv["lexems"][i].args[0])))]),)
+                    return (V("Result::Err", ["Error parsing condition"]),)
+                return None
+            text = " ".join(x for pair in zip(atoms, list(ops) + [""]) for x in pair).strip()
+            got = interp.Interp(call=call, prog=ctx.prog, max_steps=60000).run(hir, {ps[0]["id"]: selfv})
+            n += 1
+            if not (isinstance(got, V) and got.name == "Result::Ok"):
+                problems.append("`%s` gives %r" % (text, got))
+                continue
+            if selfv["index"] != len(lex) - 1:
+                problems.append("`%s`: the cursor is left at %d, expected %d (before the closing bracket)" % (text, selfv["index"], len(lex) - 1))
+                continue
+            for vals in itertools.product((False, True), repeat=k):
+                env = dict(zip(atoms, vals))
+                # AND binds tighter than OR
+                want = any(all(env[a] for a in grp.split("&")) for grp in "".join(a + ("&" if i < k - 1 and ops[i] == "and" else ("|" if i < k - 1 else "")) for i, a in enumerate(atoms)).split("|"))
+                if expr_truth(got.args[0], env) != want:
+                    problems.append("`%s` is parsed into a tree that is %s for %s, the formula is %s (AND binds tighter than OR)" % (text, not want, env, want))
+                    break
+    return n, problems
+
+
+def negation_by_evaluation(ctx):
+    """negate_expr_op evaluated (finite interpreter, Op::negate read from the source) on trees of up to three comparisons joined
+    by And / Or in both bracketings: the result has the complementary truth table.  -> (trees, problems)"""
+    import interp
+    import itertools
+    from extra import _expr_dict
+    V, some = interp.V, interp.some
+    h = ctx.anchor_hir(NEG_EXPR)
+    ps = ctx.prog.fns[NEG_EXPR]["params"]
+    E = lambda **kw: _expr_dict(interp, **kw)
+    atom = lambda a, op="Eq": E(left=some(E(val=some(a))), op=some(V("Op::" + op)), right=some(E(val=some("v"))))
+    join = lambda l, o, r: E(left=some(l), logical_op=some(V("LogicalOp::" + o)), right=some(r))
+    trees = [("a", atom("a")), ("a (written with !=)", atom("a", "Ne"))]
+    for o in ("And", "Or"):
+        trees.append(("a %s b" % o, join(atom("a"), o, atom("b"))))
+    for o1, o2 in itertools.product(("And", "Or"), repeat=2):
+        trees.append(("a %s (b %s c)" % (o1, o2), join(atom("a"), o1, join(atom("b"), o2, atom("c", "Ne")))))
+        trees.append(("(a %s b) %s c" % (o1, o2), join(join(atom("a", "Ne"), o1, atom("b")), o2, atom("c"))))
+    n, problems = 0, []
+    for label, tree in trees:
+        import copy
+        got = interp.Interp(prog=ctx.prog, max_steps=40000).run(h, {ps[0]["id"]: copy.deepcopy(tree)})
+        n += 1
+        for vals in itertools.product((False, True), repeat=3):
+            env = dict(zip("abc", vals))
+            if expr_truth(got, env) == expr_truth(tree, env):
+                problems.append("the negation of `%s` has the same value as the condition itself for %s" % (label, env))
+                break
+    return n, problems
+
+
+
 def r2(ctx):
     """De Morgan: the prefix-NOT rewriting must dualise And/Or when it descends into both operands"""
+    import interp
+    try:
+        n_ev, problems = negation_by_evaluation(ctx)
+        ctx.obligation(not problems)
+        ctx.covered("negate_expr_op evaluated on 12 trees of comparisons (complementary truth table)", n_ev, distinct_keys=["negate_expr_op"], exhaustive=True)
+        for pr in problems[:4]:
+            ctx.violation("de-morgan/evaluated", ctx.where(NEG_EXPR), "prefix NOT must turn a condition into its complement (operators negated, And / Or swapped): %s" % pr)
+        return
+    except interp.Undecided:
+        pass        # read structurally instead
     hir = ctx.anchor_hir(NEG_EXPR)
     names = ctx.prog.with_closures(NEG_EXPR)
     writes = set()
@@ -183,9 +340,21 @@ def _lexem_pats(h):
 
 
 def r4(ctx):
+    import interp
     pe, pa, pc = ctx.anchor_hir(PARSE_EXPR), ctx.anchor_hir(PARSE_AND), ctx.anchor_hir(PARSE_COND)
     rows = [(PARSE_EXPR, pe, "Or", "parse_and", "And"), (PARSE_AND, pa, "And", "parse_cond", "Or")]
-    for name, h, lop, callee, other in rows:
+    layering_decided = False
+    try:
+        n_ev, problems = boolean_grammar_by_evaluation(ctx)
+        layering_decided = True
+        ctx.obligation(not problems)
+        ctx.covered("parse_expr / parse_and evaluated on the 15 formulas of 1..4 atoms joined by and / or (truth table of the tree = formula with AND tighter than OR)", n_ev,
+                    distinct_keys=[PARSE_EXPR, PARSE_AND], exhaustive=True)
+        for pr in problems[:4]:
+            ctx.violation("layering/evaluated", ctx.where(PARSE_EXPR), "AND binds tighter than OR and both are associative: %s" % pr)
+    except interp.Undecided:
+        pass        # read the two levels structurally instead
+    for name, h, lop, callee, other in ([] if layering_decided else rows):
         ctors = _logical_ctor_set(h)
         pats = _lexem_pats(h)
         sub = calls_to(h, "Parser::" + callee)
@@ -206,7 +375,7 @@ def r4(ctx):
                 ctx.violation("layering/%s/operand-order" % short(name, 1), ctx.where(name, c),
                               "logical node built with swapped operands: %s, %s" % (a0, a2))
     # parse_expr must not call parse_cond directly; parse_and must not call parse_expr/parse_and for operands
-    if calls_to(pe, "Parser::parse_cond"):
+    if not layering_decided and calls_to(pe, "Parser::parse_cond"):
         ctx.violation("layering/parse_expr-skips-and", ctx.where(PARSE_EXPR), "parse_expr takes an operand from parse_cond directly")
     # brackets
     # parse_paren evaluated (finite interpreter; parse_expr and parse_func_scalar are stand-ins that take one word): an opening
